@@ -231,7 +231,11 @@ class ConvexSpheropolygon(Shape2D):
         angle_ranges[angle_ranges < 0] += 2 * np.pi
 
         # compute shape kernel for the new set of vertices
-        kernel = ConvexPolygon(new_verts).distance_to_surface(angles)
+        # The offset polygon's own centroid differs from the core's in general, so
+        # measure from the core centroid (the origin of new_verts).
+        kernel = ConvexPolygon(new_verts)._distance_to_surface_from(
+            angles, np.zeros(3)
+        )
 
         # get the shape kernel for this shape by adjusting indices of shape kernel
         # for the new vertices
